@@ -369,7 +369,7 @@ class HyReader(Reader):
         (this allows, e.g., `#reads-multiple-forms foo bar baz`).
         """
 
-        if not self.peekc().strip():
+        if not self.peekc() or isnormalizedspace(self.peekc()):
             raise PrematureEndOfInput.from_reader(
                 "Premature end of input while attempting dispatch", self
             )
